@@ -204,7 +204,8 @@ int main(int argc, char** argv) {
         bool ok = t->read_key(key.c_str(), res);
         int rc = splinetable_read_key(&ct, SPLINETABLE_INT, key.c_str(), &res2);
         bool present = t->get_aux_value(key.c_str()) != nullptr;
-        if (rc != 0 || res2 != res) out = "ri:C-wrapper-differs";
+        // the C wrapper returns 0 exactly when the C++ read_key succeeds (C18 repair: a missing or unparsable key is reported)
+        if ((rc == 0) != ok || res2 != res) out = "ri:C-wrapper-differs";
         else if (!present) out = (ok || res != 777) ? "ri:absent-but-result-touched" : "ri:absent";
         else out = std::string("ri:") + (ok ? "1" : "0") + ":" + (res == 777 && !ok ? std::string("untouched") : std::to_string(res));
         count(!present ? "outcome:ri-absent" : (ok ? "outcome:ri-ok" : "outcome:ri-fail"));
@@ -218,9 +219,9 @@ int main(int argc, char** argv) {
         fprintf(fc, "RD %s\n", hex(key).c_str()); count("op:read-double");
         double res = 777.25, res2 = 777.25;
         bool ok = t->read_key(key.c_str(), res);
-        splinetable_read_key(&ct, SPLINETABLE_DOUBLE, key.c_str(), &res2);
+        int rcd = splinetable_read_key(&ct, SPLINETABLE_DOUBLE, key.c_str(), &res2);
         bool present = t->get_aux_value(key.c_str()) != nullptr;
-        if (cbits(res) != cbits(res2)) out = "rd:C-wrapper-differs";
+        if ((rcd == 0) != ok || cbits(res) != cbits(res2)) out = "rd:C-wrapper-differs";
         else if (!present) out = (ok || res != 777.25) ? "rd:absent-but-result-touched" : "rd:absent";
         else out = std::string("rd:") + (ok ? "1" : "0") + ":" + std::to_string(cbits(res));
       } else {
